@@ -12,6 +12,7 @@ import (
 	"testing"
 	"testing/synctest"
 	"time"
+	"unicode/utf8"
 
 	"github.com/smartcontractkit/libocr/commontypes"
 	ocr2types "github.com/smartcontractkit/libocr/offchainreporting2plus/types"
@@ -88,11 +89,22 @@ type c16Head struct {
 	MidAt int  `json:"midAt"` // k >= 1: Observation() is called while this head is being sampled, when the observer
 	//                           is inside its k-th Eligible call (k-1 results already staged, advance not yet run); 0: none
 	After bool `json:"after"` // Observation() is called at the quiescent point after this head
+	// with After: the key (block|id) that observation listed is then accepted as a finalized report would be
+	// (ShouldAcceptFinalizedReport -> Coordinator.Accept) and Observation() is called once more, same head
+	AcceptAfter bool `json:"acceptAfter"`
+}
+
+// c16Prior: an earlier plugin instance created by the SAME factory (libocr keeps one factory per job and
+// asks it for a new instance whenever the configuration changes); it is closed before the next one is made.
+type c16Prior struct {
+	Cfg c16Cfg `json:"cfg"`
+	Bad bool   `json:"bad"` // the off-chain config of that instance does not decode (NewReportingPlugin fails)
 }
 
 type c16Input struct {
-	Mode   string    `json:"mode"` // "report" | "obs"
-	Cfg    c16Cfg    `json:"cfg"`
+	Mode   string     `json:"mode"` // "report" | "obs"
+	Prior  []c16Prior `json:"prior"` // instances the factory produced before the one under test
+	Cfg    c16Cfg     `json:"cfg"`   // configuration of the instance under test
 	Epoch  uint32    `json:"epoch"`
 	Round  uint8     `json:"round"`
 	Digest uint64    `json:"digest"`
@@ -147,6 +159,8 @@ type c16Point struct {
 	OutErr string    `json:"outErr"`
 	OutDec c16Dec    `json:"outDec"`
 	Seen   []c16Seen `json:"seen"`
+	// keys the harness had accepted (AcceptAfter) before this call, in order
+	Accepted []string `json:"accepted"`
 }
 
 // ---------------------------------------------------------------- fakes
@@ -290,7 +304,14 @@ func (c *c16FakeCoord) IsPending(key v2.UpkeepKey) (bool, error) {
 	}
 	return c.pend[string(id)], nil
 }
-func (c *c16FakeCoord) Accept(v2.UpkeepKey) error                   { return nil }
+func (c *c16FakeCoord) Accept(key v2.UpkeepKey) error {
+	_, id, err := v2enc.BasicEncoder{}.SplitUpkeepKey(key)
+	if err != nil {
+		return err
+	}
+	c.pend[string(id)] = true
+	return nil
+}
 func (c *c16FakeCoord) IsTransmissionConfirmed(v2.UpkeepKey) bool { return false }
 
 // c16RecCoord records every IsPending answer of the coordinator behind it.
@@ -405,8 +426,30 @@ func c16NewNode(in c16Input) (*c16Node, error) {
 	for i := 0; i < 8; i++ {
 		digest[i] = byte(in.Digest >> (8 * i))
 	}
-	conf := fmt.Sprintf(`{"maxUpkeepBatchSize":%d,"gasLimitPerReport":%d,"gasOverheadPerUpkeep":%d}`, in.Cfg.Batch, in.Cfg.GasLimit, in.Cfg.Overhead)
-	p, info, err := fac.NewReportingPlugin(context.Background(), ocr2types.ReportingPluginConfig{ConfigDigest: digest, OracleID: 0, N: 4, F: 1, OffchainConfig: []byte(conf)})
+	confOf := func(c c16Cfg) []byte {
+		return []byte(fmt.Sprintf(`{"maxUpkeepBatchSize":%d,"gasLimitPerReport":%d,"gasOverheadPerUpkeep":%d}`, c.Batch, c.GasLimit, c.Overhead))
+	}
+	pc := ocr2types.ReportingPluginConfig{ConfigDigest: digest, OracleID: 0, N: 4, F: 1}
+	// the same factory serves every configuration of the job, one instance after the other
+	for i, pr := range in.Prior {
+		pc.OffchainConfig = confOf(pr.Cfg)
+		if pr.Bad {
+			pc.OffchainConfig = []byte(`{"maxUpkeepBatchSize":"many"}`)
+		}
+		old, _, err := fac.NewReportingPlugin(context.Background(), pc)
+		if err == nil {
+			synctest.Wait()
+			if cerr := old.Close(); cerr != nil {
+				return nil, fmt.Errorf("prior instance %d: close: %v", i, cerr)
+			}
+			synctest.Wait()
+		}
+		if (err != nil) != pr.Bad {
+			return nil, fmt.Errorf("prior instance %d: undecodable config=%v but NewReportingPlugin err=%v", i, pr.Bad, err)
+		}
+	}
+	pc.OffchainConfig = confOf(in.Cfg)
+	p, info, err := fac.NewReportingPlugin(context.Background(), pc)
 	if err != nil {
 		return nil, err
 	}
@@ -474,9 +517,12 @@ func c16Run(t *testing.T, in c16Input) (impl c16Impl) {
 	node.cf.rec.take()
 
 	if in.Mode == "obs" {
+		accepted := []string{}
+		var lastKey string // block|id of the single id the latest observation listed ("" if none)
 		observe := func(n int, phase string) {
 			node.cf.rec.take()
-			p := c16Point{N: n, Phase: phase}
+			p := c16Point{N: n, Phase: phase, Accepted: append([]string{}, accepted...)}
+			lastKey = ""
 			func() {
 				defer func() {
 					if r := recover(); r != nil {
@@ -489,6 +535,12 @@ func c16Run(t *testing.T, in c16Input) (impl c16Impl) {
 				}
 				p.Out = hx(b)
 				p.OutDec = c16Decode(b)
+				if p.OutDec.OK && len(p.OutDec.Ids) == 1 && p.OutDec.Ids[0] != nil {
+					k := p.OutDec.Block + "|" + string(unhx(*p.OutDec.Ids[0]))
+					if _, _, err := (v2enc.BasicEncoder{}).SplitUpkeepKey(v2.UpkeepKey(k)); err == nil && utf8.ValidString(k) {
+						lastKey = k
+					}
+				}
 			}()
 			p.Seen = append([]c16Seen{}, node.cf.rec.take()...)
 			impl.Points = append(impl.Points, p)
@@ -523,6 +575,16 @@ func c16Run(t *testing.T, in c16Input) (impl c16Impl) {
 			time.Sleep(37 * time.Millisecond)
 			if h.After {
 				observe(i+1, "after")
+				if h.AcceptAfter {
+					if lastKey != "" {
+						rep, _ := json.Marshal([]string{lastKey})
+						if ok, err := node.plugin.ShouldAcceptFinalizedReport(ctx, node.ts, rep); err != nil || !ok {
+							impl.Setup += fmt.Sprintf(" accept %q: %v %v", lastKey, ok, err)
+						}
+						accepted = append(accepted, lastKey)
+					}
+					observe(i+1, "after2")
+				}
 			}
 		}
 		observe(len(in.Heads), "final")
@@ -716,6 +778,28 @@ func c16GenCfg(r *Rng) c16Cfg {
 	return c
 }
 
+// c16GenPrior: configurations the same factory served before; often looser than the one under test, so
+// that limits carried over from an earlier instance would show.
+func c16GenPrior(r *Rng, em *Emitter) []c16Prior {
+	if r.Chance(50) {
+		return nil
+	}
+	em.Hit("factory-reused")
+	var out []c16Prior
+	for n := r.Range(1, 2); n > 0; n-- {
+		switch r.Intn(5) {
+		case 0, 1:
+			out = append(out, c16Prior{Cfg: c16Cfg{Batch: 20, GasLimit: 1<<32 - 1, Overhead: 1}})
+		case 2:
+			em.Hit("prior=undecodable-config")
+			out = append(out, c16Prior{Bad: true})
+		default:
+			out = append(out, c16Prior{Cfg: c16GenCfg(r)})
+		}
+	}
+	return out
+}
+
 func c16Eff(c c16Cfg) (batch int, limit, overhead uint64) {
 	batch, limit, overhead = c.Batch, uint64(c.GasLimit), uint64(c.Overhead)
 	if batch <= 0 {
@@ -864,7 +948,7 @@ func c16GenCoord(r *Rng, ids []string, blocks []string, em *Emitter) c16Coord {
 // (bad / out-of-range / non-numeric block key, or a legal far-away block with a bad id) placed so that
 // counting them would move the median (or make GetMedian panic).
 func c16GenMover(r *Rng, em *Emitter) c16Input {
-	in := c16Input{Mode: "report", Cfg: c16GenCfg(r), Epoch: uint32(r.Intn(1000)), Round: uint8(r.Intn(256)), Digest: r.U64()}
+	in := c16Input{Mode: "report", Prior: c16GenPrior(r, em), Cfg: c16GenCfg(r), Epoch: uint32(r.Intn(1000)), Round: uint8(r.Intn(256)), Digest: r.U64()}
 	base := 1000 + r.U64()%(1<<40)
 	nv := r.Range(1, 5)
 	pool := []string{c16Id(r), c16Id(r), c16Id(r)}
@@ -934,7 +1018,7 @@ func c16GenReport(r *Rng, em *Emitter) c16Input {
 		em.Hit("report=median-mover")
 		return c16GenMover(r, em)
 	}
-	in := c16Input{Mode: "report", Cfg: c16GenCfg(r), Epoch: uint32(r.Intn(1000)), Round: uint8(r.Intn(256)), Digest: r.U64()}
+	in := c16Input{Mode: "report", Prior: c16GenPrior(r, em), Cfg: c16GenCfg(r), Epoch: uint32(r.Intn(1000)), Round: uint8(r.Intn(256)), Digest: r.U64()}
 	n := []int{1, 2, 3, 4, 4, 5, 7, 7, 10, 13, 16, 31}[r.Intn(12)]
 	if r.Chance(2) {
 		n = 0
@@ -1063,7 +1147,7 @@ func c16GenReport(r *Rng, em *Emitter) c16Input {
 // c16GenObsShift: consecutive heads over one small pool of upkeeps whose eligible set shrinks, shifts or is
 // reordered from head to head; Observation() is called after each head and WHILE the next one is sampled.
 func c16GenObsShift(r *Rng, em *Emitter) c16Input {
-	in := c16Input{Mode: "obs", Cfg: c16GenCfg(r), Epoch: uint32(r.Intn(1000)), Round: uint8(r.Intn(256)), Digest: r.U64()}
+	in := c16Input{Mode: "obs", Prior: c16GenPrior(r, em), Cfg: c16GenCfg(r), Epoch: uint32(r.Intn(1000)), Round: uint8(r.Intn(256)), Digest: r.U64()}
 	np := r.Range(2, 5)
 	pool := make([]string, np)
 	for i := range pool {
@@ -1078,6 +1162,7 @@ func c16GenObsShift(r *Rng, em *Emitter) c16Input {
 	var blocks []string
 	for hi := 0; hi < nh; hi++ {
 		h := c16Head{Block: fmt.Sprintf("%d", base+uint64(hi)), Active: np, After: r.Chance(70)}
+		h.AcceptAfter = h.After && r.Chance(50)
 		blocks = append(blocks, h.Block)
 		cur := make([]bool, np)
 		kind := r.Intn(4)
@@ -1142,7 +1227,7 @@ func c16GenObs(r *Rng, em *Emitter) c16Input {
 		em.Hit("obs=shifting-heads")
 		return c16GenObsShift(r, em)
 	}
-	in := c16Input{Mode: "obs", Cfg: c16GenCfg(r), Epoch: uint32(r.Intn(1000)), Round: uint8(r.Intn(256)), Digest: r.U64()}
+	in := c16Input{Mode: "obs", Prior: c16GenPrior(r, em), Cfg: c16GenCfg(r), Epoch: uint32(r.Intn(1000)), Round: uint8(r.Intn(256)), Digest: r.U64()}
 	nh := r.Range(0, 3)
 	em.Hit(fmt.Sprintf("heads=%d", nh))
 	var ids []string
@@ -1190,6 +1275,7 @@ func c16GenObs(r *Rng, em *Emitter) c16Input {
 			em.Hit("mid-observe")
 		}
 		h.After = r.Chance(40)
+		h.AcceptAfter = h.After && r.Chance(50)
 		in.Heads = append(in.Heads, h)
 	}
 	in.Coord = c16GenCoord(r, ids, blocks, em)
@@ -1269,6 +1355,16 @@ func c16Edge() []c16Input {
 		Script: c16Script{Items: []c16Item{{Pos: 0, Eligible: true}, {Pos: 0, Eligible: true}}}})
 	out = append(out, c16Input{Mode: "report", Cfg: def, Coord: fake, Obs: []string{obs("1", "1")},
 		Script: c16Script{EncErr: true, Items: all(1, c16Item{Eligible: true, Gas: 1})}})
+	// one factory, configuration tightened: batch 5 / 10M gas, then batch 2 / 1.5M gas, then batch 5 / 700k gas
+	{
+		loose := c16Cfg{Batch: 5, GasLimit: 10_000_000, Overhead: 100_000}
+		five := []string{obs("50", "1"), obs("50", "2"), obs("50", "3"), obs("50", "4"), obs("50", "5")}
+		sc := c16Script{Items: all(5, c16Item{Eligible: true, Gas: 500_000})}
+		out = append(out, c16Input{Mode: "report", Prior: []c16Prior{{Cfg: loose}}, Cfg: c16Cfg{Batch: 2, GasLimit: 1_500_000, Overhead: 100_000}, Coord: fake, Obs: five, Script: sc})
+		out = append(out, c16Input{Mode: "report", Prior: []c16Prior{{Cfg: loose}, {Cfg: c16Cfg{Batch: 2, GasLimit: 1_500_000, Overhead: 100_000}}}, Cfg: c16Cfg{Batch: 5, GasLimit: 700_000, Overhead: 100_000}, Coord: fake, Obs: five, Script: sc})
+		out = append(out, c16Input{Mode: "report", Prior: []c16Prior{{Bad: true}}, Cfg: c16Cfg{Batch: 2, GasLimit: 1_500_000, Overhead: 100_000}, Coord: fake, Obs: five, Script: sc})
+		out = append(out, c16Input{Mode: "report", Prior: []c16Prior{{Cfg: c16Cfg{Batch: 1, GasLimit: 700_000, Overhead: 100_000}}}, Cfg: loose, Coord: fake, Obs: five, Script: sc})
+	}
 	// decodable but invalid observations must not take part in the median (valid blocks 100,101[,102] -> 101)
 	one := c16Script{Items: all(1, c16Item{Eligible: true, Gas: 1})}
 	out = append(out, c16Input{Mode: "report", Cfg: def, Coord: fake, Script: one, Obs: []string{obs("100", "7"), obs("101", "7"), obs("-1", "7")}})
@@ -1287,6 +1383,13 @@ func c16Edge() []c16Input {
 		h2 := hd("101", el("101|3"), c16HeadRes{Key: "101|1"}, c16HeadRes{Key: "101|2"})
 		h2.MidAt, h2.After = k, true
 		out = append(out, c16Input{Mode: "obs", Cfg: def, Coord: fake, Heads: []c16Head{h1, h2}})
+	}
+	for _, kind := range []string{"fake", "real"} {
+		h1 := hd("100", el("100|5"), el("100|6"))
+		h1.After, h1.AcceptAfter = true, true
+		h2 := hd("101", el("101|5"), el("101|6"))
+		h2.After, h2.AcceptAfter = true, true
+		out = append(out, c16Input{Mode: "obs", Cfg: def, Coord: c16Coord{Kind: kind}, Heads: []c16Head{h1, h2}})
 	}
 	{
 		h1 := hd("100", el("100|1"))
